@@ -31,12 +31,12 @@ CHECKS = {
             "batch back-off with a per-call context).",
             "runtime bounded-response monitor over confirmed wait states", "DESIGN.md §2 C13"),
     "C19": ("exploration",
-            "With 1..16 callers running gets, puts, batches and scans, Close is issued at points chosen through real "
+            "With 1..16 callers running gets, puts, batches, scans and CacheRegions, Close is issued at points chosen through real "
             "preemption points of the client (its log statements, the dialer, held server replies): right before a dial, during "
             "a dial, during the region probe, during a meta lookup, during retry back-off, with ZooKeeper failing, with a "
             "scanner open, during batches, and at seeded instants. Afterwards: Close returned, calls in flight and later calls "
-            "end with the client-closed error, every connection the client dialled has been closed by it, no dial / ZooKeeper / "
-            "meta / request activity once all calls returned, no client goroutine in the process, second Close harmless.",
+            "end with the client-closed error, every connection the client dialled has been closed by it, no dial, no ZooKeeper "
+            "lookup and no successful write on any connection (client-side observation) once all calls returned, no client goroutine in the process, second Close harmless.",
             "Quiescence = all calls returned + 60 ms; activity is observed for 150 ms after it. Interleavings are those the hook "
             "points and seeds realise.",
             "runtime quiescence monitor (connection census, wire log, goroutine census) with hook-forced schedules", "DESIGN.md §2 C19"),
@@ -73,7 +73,8 @@ CHECKS = {
             "The real region client (reader goroutine, batching writer, callers sending unbatched calls) runs over an "
             "instrumented connection; for seeded workloads every fault position is enumerated: the k-th Read / Write / "
             "SetReadDeadline / SetWriteDeadline fails (error, partial write, short read + EOF, timeout), an external Close at "
-            "every operation count, and a server that sends an undecodable frame, an unknown call id, a server-fatal "
+            "every operation count, a k-th write that blocks (server stopped reading) while the connection fails by read "
+            "timeout / Close / bad frame / fatal exception, and a server that sends an undecodable frame, an unknown call id, a server-fatal "
             "exception, closes mid-frame or falls silent at the r-th request, each under plain / slow-writer / slow-reader "
             "schedules. Counting receivers on every result channel observe 0, 1 or 2 deliveries; post-failure submissions must "
             "be refused with the connection-level class; a goroutine census must find nothing left of the failed client.",
@@ -83,9 +84,11 @@ CHECKS = {
     "C18": ("exploration",
             "Request/response sequences on one connection (bare region client and full client) bring the outstanding count to "
             "zero and back through unbatched calls, batches, responses forced to be read before the sender returns from Write, "
-            "calls cancelled while unanswered and responses released together. The connection wrapper records every "
-            "SetReadDeadline: at each quiescent point no deadline may be armed and the connection must be open; while requests "
-            "are held the armed deadline must cover last send + timeout. Real-time cases: idle for 5 timeouts then a request on "
+            "calls cancelled while unanswered, responses released together, and a request sent while the deadline-clearing call "
+            "of the previous response is in progress. The connection wrapper records every Write and SetReadDeadline in order: "
+            "at each quiescent point the deadline must get cleared and the connection must be open; while requests are held, "
+            "the last request write must be followed by a deadline update covering write time + timeout (order-based, waited "
+            "for, never sampled at a guessed moment). Real-time cases: idle for 5 timeouts then a request on "
             "the same connection (no re-dial), and a silent server detected not before one timeout.",
             "Deadline comparisons use the values the client passed to SetReadDeadline. Upper bound on detection is 2 s beyond "
             "the timeout.",
@@ -130,7 +133,9 @@ CHECKS = {
             "The real client runs all request kinds and batches against simulated clusters with hostile table names and "
             "boundary-adjacent keys; the simulated servers judge every executed action (region name and server must own "
             "the row) and meta lookups are counted per first touch (exactly one per new region, none for cached keys); a "
-            "concurrent phase (8 callers) asserts no misrouting and no lookup for keys of regions resolved before it.",
+            "concurrent phase (8 callers) asserts no misrouting and no lookup for keys of regions resolved before it; some "
+            "clusters are warmed with CacheRegions first (then no lookup at all). (3) Tables whose hbase:meta lacks the row "
+            "of one region: keys in the hole are looked up again and again and never sent to a neighbouring region.",
             "Trusted: simulated hbase:meta answering semantically, brute-force containment. Static layouts, sequential "
             "requests; keys/layouts outside the enumerated scope and random sample are not judged.",
             "runtime differential oracle (exhaustive small scope) + wire-level monitor on a simulated cluster", "DESIGN.md §2 C01"),
